@@ -5,6 +5,9 @@
 
 #include <rapidcheck.h>
 
+#include <signal.h>
+#include <unistd.h>
+
 #include <array>
 #include <cinttypes>
 #include <cstdint>
@@ -405,7 +408,34 @@ struct Harness {
   std::function<std::string(const std::string &mode)> enumerate;
 };
 
+// Watchdog: a case that runs longer than VERIF_CASE_TIMEOUT seconds (default 300 - three to five orders of
+// magnitude above a normal case) is dumped as a "hang" replay and the process exits; the driver re-runs it in
+// isolation before believing it.
+inline void alarm_handler(int) {
+  auto &c = current_case();
+  if (!c.tokens.empty()) {
+    c.message = "case did not finish within the watchdog limit";
+    std::string p = write_replay(c, "hang");
+    if (!p.empty()) {
+      stats().failures.push_back(p);
+      stats().fail_message = c.message;
+    }
+  }
+  write_stats();
+  _exit(4);
+}
+inline void arm_watchdog() {
+  static const int limit = atoi(env("VERIF_CASE_TIMEOUT", "300"));
+  static bool installed = false;
+  if (!installed) {
+    signal(SIGALRM, alarm_handler);
+    installed = true;
+  }
+  alarm(limit > 0 ? limit : 300);
+}
+
 inline void set_case(const std::string &mode, std::vector<int64_t> tokens, std::string describe) {
+  arm_watchdog();
   auto &c = current_case();
   c.mode = mode;
   c.tokens = std::move(tokens);
@@ -489,6 +519,7 @@ inline int harness_main(int argc, char **argv, const Harness &h) {
     if (!p.empty()) stats().failures.push_back(p);
     printf("FALSIFIED %s replay=%s\n", c.message.c_str(), p.c_str());
   }
+  alarm(0);
   current_case().tokens.clear();
   write_stats();
   return ok ? 0 : 1;
